@@ -2,6 +2,7 @@ package checks
 
 import (
 	"fmt"
+	"strings"
 
 	"github.com/goplus/gogen/verif/internal/drive"
 	"github.com/goplus/gogen/verif/internal/gen"
@@ -43,7 +44,50 @@ func runNestedConst(tier string, seed uint64, i int) []h.Result {
 	return []h.Result{res}
 }
 
+func progN(tier string) int {
+	if tier == "thorough" {
+		return 20000
+	}
+	return 800
+}
+
+func validProg(id string, seed uint64, i int) progSpec {
+	nc := len(Corpus())
+	if i < nc {
+		c := Corpus()[i]
+		return progSpec{kind: "corpus", src: []string{c.Src}, key: "corpus " + c.Name}
+	}
+	p := mkProg(id, seed, i, false, i%5 == 0)
+	if i%3 == 1 {
+		p.src, p.names = splitFiles(p.src[0], h.NewRand(seed, 7, uint64(i)))
+		p.kind = "multi"
+		p.key = fmt.Sprintf("generated multi-file program seed=%d case=%d (%d files)", seed, i, len(p.src))
+	}
+	return p
+}
+
+func c02Extra(tier string, seed uint64, i int) []h.Result {
+	p := validProg("C02", seed, i)
+	o := runProg(p, drive.Opt{})
+	r := judgeC02(p.key, o)
+	if p.kind == "corpus" && r.Verdict == h.Violated && r.Kind == "rejected-valid" && strings.Contains(o.Msg, "could not import") {
+		r.Verdict, r.Kind = h.Skip, "corpus-program-needs-a-test-importer"
+	}
+	progResultExtras(&r, p, o)
+	return []h.Result{r}
+}
+
+func c03Extra(tier string, seed uint64, i int) []h.Result {
+	p := validProg("C03", seed, i)
+	o := runProg(p, drive.Opt{})
+	r := judgeC03(p.key, o)
+	progResultExtras(&r, p, o)
+	return []h.Result{r}
+}
+
 func init() {
+	c02def.extraN, c02def.extraRun = progN, c02Extra
+	c03def.extraN, c03def.extraRun = progN, c03Extra
 	c04def.extraN = nestedConstN
 	c04def.extraRun = runNestedConst
 	h.Register(&h.Check{
